@@ -17,6 +17,18 @@ def evaluate(src):
         return "outside", f"{out.kind}:{out.title}", out.message[-1500:]
     if out.kind == "unsupported":
         return "unsupported", out.title, out.message[:300]
+    if out.kind == "timeout":
+        # CPython finished this program within pyref's step bound; an emulator run that is still going after
+        # the (generous) limit is confirmed once on a fresh build before it is reported
+        out2, lm2 = runner.run_source(runner.PRELUDE + src, n_qubits=4)
+        if lm2 is not None:
+            lm2.dispose()
+        if out2.kind == "timeout":
+            return "mismatch", "nontermination", (f"{out.message}; results so far {out.stream[-5:]}; Python finished with "
+                                                  f"{len(ref)} results")
+        out = out2
+        if out.kind in ("rejected", "crash", "invalid", "unsupported"):
+            return "unsupported", "unstable:" + out.kind, out.message[:300]
     got_pan = out.message if out.kind == "panic" else None
     if (got_pan is None) != (pan is None):
         return "mismatch", "panic", f"panic: emulator {got_pan!r} vs Python {pan!r}; streams {out.stream} / {ref}"
